@@ -422,6 +422,17 @@ def oracle(ctx, deep):
                 if not r["ok"]:
                     fails.append({"key": f"C20:vector-coefficient:{cname}", "what": f"{cname} in D={D} given a coefficient vector of length {n}: {r['outcome']}, expected {r['expected']}",
                                   "probe": "vector_coefficient", "args": {"cname": cname, "D": D, "n": n}, "observed": r})
+    for where in ("laplace", "gradient_inner_product", "Poisson", "Leray"):
+        for D in (1, 2, 3):
+            for order in (1, 2, 3, 4, 5, 6):
+                try:
+                    r = probe_order_parity(where, D, order)
+                except (ImportError, TypeError):
+                    continue       # an entry point without an `order` argument has no parity to refuse
+                ctx.count(("oracle_order_parity", where, D, order))
+                if not r["ok"]:
+                    fails.append({"key": f"C20:order-parity:{where}", "what": f"{where} (D={D}) given derivative order {order}: {r['outcome']}, expected {r['expected']}",
+                                  "probe": "order_parity", "args": {"where": where, "D": D, "order": order}, "observed": r})
     for D in (1, 2, 3):
         for order in (0, 1, 2, 3, 4):
             for kind in ("broadcast", "per_channel", "three_channels", "extra_axis", "missing_axis"):
@@ -479,6 +490,39 @@ VECTOR_COEFFS = {"Advection.velocity": ("Advection", "velocity"), "AdvectionDiff
                  "Dispersion.dispersivity": ("Dispersion", "dispersivity")}
 
 
+def probe_order_parity(where, D, order):
+    """every public entry point that takes a derivative order of prescribed parity — the two operator builders and the
+    objects that build a Laplacian themselves (`Poisson`, the `Leray` projection) — refuses the wrong parity (ValueError)
+    and accepts the right one"""
+    ex = _ex()
+    import jax.numpy as jnp
+    from exponax import spectral as sp
+    N = {1: 8, 2: 6, 3: 4}[D]
+    dop = sp.build_derivative_operator(D, 1.7, N)
+    even_wanted = where != "gradient_inner_product"
+    expected = "accept" if (order % 2 == 0) == even_wanted else "ValueError"
+
+    def run():
+        if where == "laplace":
+            return sp.build_laplace_operator(dop, order=order)
+        if where == "gradient_inner_product":
+            return sp.build_gradient_inner_product_operator(dop, jnp.ones((D,)), order=order)
+        if where == "Poisson":
+            return ex.poisson.Poisson(D, 1.7, N, order=order)
+        if where == "Leray":
+            from exponax.nonlin_fun._leray import Leray
+            return Leray(D, N, derivative_operator=dop, order=order)
+        raise KeyError(where)
+    try:
+        run()
+        outcome = "accept"
+    except ValueError:
+        outcome = "ValueError"
+    except Exception as e:  # noqa: BLE001
+        outcome = type(e).__name__
+    return {"ok": outcome == expected, "outcome": outcome, "expected": expected}
+
+
 def probe_vector_coefficient(cname, D, n):
     import jax.numpy as jnp
     ex = _ex()
@@ -498,4 +542,4 @@ def probe_vector_coefficient(cname, D, n):
 
 def replay(probe, args):
     return {"shape": probe_shape, "ic_options": probe_ic_options, "vector_coefficient": probe_vector_coefficient,
-            "operator_shape": probe_operator_shape}.get(probe, probe_shape)(**args)
+            "operator_shape": probe_operator_shape, "order_parity": probe_order_parity}.get(probe, probe_shape)(**args)
